@@ -16,18 +16,57 @@ from mc.core import Check, Failure
 MAXLEN = 8
 
 
+RAISERS = {"TypeError": TypeError, "KeyError": KeyError, "ValueError": ValueError}
+
+
+class RefRaise(Exception):
+    """the reference evaluation of an element ends in an exception of class RAISERS[name] carrying `token`"""
+
+    def __init__(self, name, token):
+        Exception.__init__(self, name, token)
+        self.name, self.token = name, token
+
+
 def ev(expr, log):
     """Reference evaluation of an expression tree; appends what must be evaluated, in order."""
     tag = expr[0]
     if tag == "b":
         log.append(expr)
         return expr
+    if tag == "x":
+        # a base element whose callable fails: ('x', bid, i, exception name)
+        log.append(expr)
+        raise RefRaise(expr[3], ("verif-x", expr[1], expr[2]))
     if tag in ("p", "v"):
         return expr
     # ('m', fname, inner)
     inner = ev(expr[2], log)
     log.append(("call", expr[1], inner))
+    if expr[1] == "h":
+        # the mapped function h always fails (after having been called)
+        raise RefRaise("TypeError", ("verif-h", inner))
     return (expr[1], inner)
+
+
+def ref_read(expr):
+    """(value, RefRaise or None, evaluations) of reading one element of the model"""
+    log = []
+    try:
+        return ev(expr, log), None, log
+    except RefRaise as r:
+        return None, r, log
+
+
+def srepr(v):
+    """repr that cannot fail (a wrongly returned object may not even have a working __repr__)"""
+    try:
+        return repr(v)
+    except Exception as e:  # noqa
+        return "<%s whose repr raises %s>" % (type(v).__name__, type(e).__name__)
+
+
+def same_failure(exc, ref_exc):
+    return exc is not None and type(exc) is RAISERS[ref_exc.name] and exc.args == (ref_exc.token,)
 
 
 class C19(Check):
@@ -45,6 +84,9 @@ class C19(Check):
         # last field: alphabet schedule (A: wide and shallow, B: narrow and deep) - thorough explores both
         scheds = ["Q"] if self.tier == "quick" else ["A", "B"]
         out = [b + (s, shards, c) for c in scheds for b in base for s in range(shards)]
+        # base lists some of whose elements FAIL when evaluated (an ordinary list of failing thunks behaves the same way:
+        # reading the element raises exactly that exception, nothing else is affected, constructing ops never notice)
+        out += [b + (s, shards, c, "raisers") for c in scheds for b in [(4, 1), (2, 2)] for s in range(shards)]
         # video-backed lazy lists (menpo.io.input.video) read through a fake ffmpeg process: here reading is stateful
         # (the reader keeps a pipe and a position), so every SEQUENCE of reads is a distinct state
         n_frames = 6 if self.tier == "quick" else 7
@@ -72,13 +114,33 @@ class C19(Check):
 
         st["funcs"] = {"f": mk_f("f"), "g": mk_f("g")}
 
+        def mk_h():
+            def h(x):
+                log.append(("call", "h", x))
+                raise TypeError(("verif-h", x))
+
+            return h
+
+        raisers = len(root) > 5 and root[5] == "raisers"
+        st["raisers"] = raisers
+
+        def base_expr(bid, i):
+            if raisers and bid == 0 and i % 2 == 1:
+                return ("x", bid, i, "TypeError" if i == 1 else "KeyError")
+            return ("b", bid, i)
+
         def base_callable(bid, i):
+            e = base_expr(bid, i)
+
             def c():
-                log.append(("b", bid, i))
-                return ("b", bid, i)
+                log.append(e)
+                if e[0] == "x":
+                    raise RAISERS[e[3]](("verif-x", bid, i))
+                return e
 
             return c
 
+        st["funcs"]["h"] = mk_h()
         st["shard"] = (root[2], root[3])
         st["sched"] = root[4]
         def index_f(bid):
@@ -97,7 +159,7 @@ class C19(Check):
             else:
                 ll = LazyList.init_from_iterable(list(range(n)), f=index_f(bid))
             st["lists"].append(ll)
-            st["model"].append(tuple(("b", bid, i) for i in range(n)))
+            st["model"].append(tuple(base_expr(bid, i) for i in range(n)))
         # a base list built through the public class constructor from an index callable
 
         return st
@@ -245,6 +307,8 @@ class C19(Check):
             out.append(("map1", j, "f"))
             if full:
                 out.append(("map1", j, "g"))
+            if (full and level == 0) or st.get("raisers"):
+                out.append(("map1", j, "h"))  # a function that fails on every element (after being called)
             for delta in (0, 1, -1):
                 if n + delta >= 0:
                     out.append(("mapn", j, delta))
@@ -324,8 +388,9 @@ class C19(Check):
             idx = np.int64(i) if kind == "getnp" else i
             got, exc = call(lambda: ll[idx])
             ref_log = []
+            ref_fail = None
             try:
-                ref = ev(mod[i], ref_log)
+                ref, ref_fail, ref_log = ref_read(mod[i])
                 ref_exc = None
             except IndexError as e:
                 ref, ref_exc = None, e
@@ -335,6 +400,11 @@ class C19(Check):
                         fails.append(Failure(kind, "index-error", "index %d of %d: expected IndexError got %r %r" % (i, len(mod), got, exc)))
                     elif len(log) != log_before:
                         fails.append(Failure(kind, "evaluated-something", repr(log[log_before:])))
+                elif ref_fail is not None:
+                    if not same_failure(exc, ref_fail):
+                        fails.append(Failure(kind, "element-failure-not-propagated", "index %d: evaluating the element raises %s%r; the read gave %s %r" % (i, ref_fail.name, (ref_fail.token,), srepr(got), exc)))
+                    elif log[log_before:] != ref_log:
+                        fails.append(Failure(kind, "evaluation-set", "index %d: expected evaluations %r got %r" % (i, ref_log, log[log_before:])))
                 else:
                     if exc is not None:
                         fails.append(Failure(kind, "value", "index %d of %d raised %r" % (i, len(mod), exc)))
@@ -342,20 +412,32 @@ class C19(Check):
                         fails.append(Failure(kind, "value", "index %d: expected %r got %r" % (i, ref, got)))
                     elif log[log_before:] != ref_log:
                         fails.append(Failure(kind, "evaluation-set", "index %d: expected evaluations %r got %r" % (i, ref_log, log[log_before:])))
-            self.note("%s:%s" % (kind, "IndexError" if ref_exc is not None else "value-depth%d" % _depth(mod[i])))
+            self.note("%s:%s" % (kind, "IndexError" if ref_exc is not None else "element-fails-depth%d" % _depth(mod[i]) if ref_fail is not None else "value-depth%d" % _depth(mod[i])))
             fails.extend(self._others_unchanged(st, None) if verify else [])
             return fails
         if kind == "iter":
             constructing = False
             got, exc = call(lambda: list(ll))
-            ref_log = []
-            ref = [ev(e, ref_log) for e in mod]
+            ref_log, ref, ref_fail = [], [], None
+            for e in mod:
+                v, ref_fail, lg = ref_read(e)
+                ref_log.extend(lg)
+                if ref_fail is not None:
+                    break  # iterating an ordinary list of thunks stops at the first failing element
+                ref.append(v)
             if verify:
-                if exc is not None or got != ref:
+                if ref_fail is not None:
+                    if not same_failure(exc, ref_fail):
+                        fails.append(Failure("iter", "element-failure-not-propagated", "iteration must raise %s%r at element %d; got %s %r" % (ref_fail.name, (ref_fail.token,), len(ref), srepr(got), exc)))
+                    elif log[log_before:] != ref_log:
+                        fails.append(Failure("iter", "evaluation-set", "expected %r got %r" % (ref_log, log[log_before:])))
+                elif exc is not None or got != ref:
                     fails.append(Failure("iter", "value", "expected %r got %r %r" % (ref, got, exc)))
                 elif log[log_before:] != ref_log:
                     fails.append(Failure("iter", "evaluation-set", "expected %r got %r" % (ref_log, log[log_before:])))
-            self.note("iter:len%d" % len(mod))
+            self.note("iter:len%d" % len(mod) if ref_fail is None else "iter:element-fails")
+            if ref_fail is not None and verify:
+                fails.extend(self._others_unchanged(st, None))
             return fails
 
         # ---- constructing operations
@@ -464,15 +546,26 @@ class C19(Check):
                 continue
             for i, e in enumerate(mod):
                 mark = len(log)
+                ref, ref_fail, ref_log = ref_read(e)
+                got = exc = None
                 try:
                     got = ll[i]
-                except Exception as exc:  # noqa
-                    fails.append(Failure(where, clause, "list #%d element %d raised %r" % (k, i, exc)))
-                    break
-                ref_log = []
-                ref = ev(e, ref_log)
+                except Exception as exc_:  # noqa
+                    exc = exc_
                 got_log = log[mark:]
                 del log[mark:]
+                if ref_fail is not None:
+                    self.note("read:element-fails")
+                    if not same_failure(exc, ref_fail):
+                        fails.append(Failure(where, "element-failure-not-propagated", "list #%d element %d: evaluating it raises %s%r; the read gave %s %r" % (k, i, ref_fail.name, (ref_fail.token,), srepr(got), exc)))
+                        break
+                    if got_log != ref_log:
+                        fails.append(Failure(where, "evaluation-set", "list #%d element %d: expected evaluations %r got %r" % (k, i, ref_log, got_log)))
+                        break
+                    continue
+                if exc is not None:
+                    fails.append(Failure(where, clause, "list #%d element %d raised %r" % (k, i, exc)))
+                    break
                 self.note("read:depth%d" % _depth(e))
                 if got != ref:
                     fails.append(Failure(where, clause, "list #%d element %d: expected %r got %r" % (k, i, ref, got)))
@@ -484,7 +577,7 @@ class C19(Check):
 
     # ------------------------------------------------------------------ reporting
     def vacuity(self, notes, stats):
-        need = ["vget:forward-jump", "vget:backward-or-same", "vget:next", "vget:derived", "get:IndexError", "mapn:ValueError", "fancy:IndexError", "repeat:len0", "slice:len0", "iter:len0"]
+        need = ["vget:forward-jump", "vget:backward-or-same", "vget:next", "vget:derived", "get:IndexError", "mapn:ValueError", "fancy:IndexError", "repeat:len0", "slice:len0", "iter:len0", "read:element-fails", "iter:element-fails", "get:element-fails-depth0", "get:element-fails-depth1"]
         out = ["outcome %s never produced" % n for n in need if not notes.get(n)]
         if not notes.get("read:depth2"):
             out.append("no element of a doubly derived list was ever read")
@@ -504,6 +597,7 @@ class C19(Check):
             "lists longer than %d elements are not constructed (ops that would exceed it are not enabled)" % MAXLEN,
             "depth bound on the number of chained operations; deeper levels use the reduced slice/index alphabet",
             "boolean index arrays are outside the property (boolean-free iterables)",
+            "failing elements raise TypeError / KeyError (base thunks) or TypeError (mapped function h); an element raising IndexError or StopIteration is not a letter (the Sequence iteration protocol gives those a meaning of their own)",
         ]
 
 
